@@ -739,7 +739,14 @@ pub fn scen_params(ctx: &Ctx) -> i32 {
     );
     // known finding: PerMille(p < 1000) on a file larger than one 128 KiB chunk never returns
     let witness = permille_witness(ctx);
-    finish(ctx, "params", &b, vec![("known_finding_permille", esc(&witness))])
+    let cands = if witness == "hang" {
+        let path = ctx.replays.join("C07-oracle-permille-hang.txt");
+        let _ = std::fs::write(&path, "# property=C07 facet=oracle (hang)\n# a put never returns: value file buffer PerMille(1), 64 buckets, u64 keys 0.., values of 1000 bytes; hangs once the value file needs a second 128 KiB chunk\nopen u64 b64,a,m1,a\n# then: put <i as 8 LE bytes> p1000:<i>  for i = 0..400\n");
+        vec![obj(&[("key", esc("C07:permille-hang")), ("detail", esc("FileBufSizeParam::PerMille(1) for the value file: put never returns once the file exceeds one 128 KiB chunk")), ("replay", esc(&path.to_string_lossy()))])]
+    } else {
+        vec![]
+    };
+    finish(ctx, "params", &b, vec![("known_finding_permille", esc(&witness)), ("candidates", arr(&cands))])
 }
 
 /// runs the D5/PerMille witness in a child process; "hang" = still fails, "ok" = no longer fails
@@ -1538,9 +1545,13 @@ pub fn scen_sig(ctx: &Ctx) -> i32 {
                 problems.push(("open".into(), format!("{}: implementation {} but the model says {}", desc, got, model)));
             }
             for (facet, p) in problems {
-                let is_known = facet == "oracle" && file == "-" && ((a == Kt::U64 && as_kt == Kt::Vu64) || (a == Kt::Vu64 && as_kt == Kt::U64)) && p.contains("without complaint");
-                if is_known {
-                    known.push(format!("files created as {} open as {} without complaint (both declare the type signature u64_le)", a.name(), as_kt.name()));
+                let is_pair = facet == "oracle" && file == "-" && p.contains("without complaint");
+                if is_pair {
+                    // decided by /verif/check against known_findings.json: listed => KNOWN-FINDING, else VIOLATION
+                    let key = format!("C13:type-pair:{}->{}", a.name(), as_kt.name());
+                    let path = ctx.replays.join(format!("{}-oracle-pair-{}-{}.txt", ctx.prop, a.name(), as_kt.name()));
+                    let _ = std::fs::write(&path, format!("# property={} facet=oracle\n# {}\n# replay: create map m0 as `{}` with 3 entries, close; open the same files as `{}`: accepted ({})\n", ctx.prop, p, a.name(), as_kt.name(), got));
+                    known.push(obj(&[("key", esc(&key)), ("detail", esc(&p)), ("replay", esc(&path.to_string_lossy()))]));
                 } else if failures.len() < 3 {
                     let path = ctx.replays.join(format!("{}-{}-{:016x}.txt", ctx.prop, facet, fnv(&p)));
                     let _ = std::fs::write(&path, format!("# property={} facet={}\n# {}\n# replay: create map m0 as `{}` with 3 entries, close; {} ; open as `{}`\n", ctx.prop, facet, p, a.name(), if file == "-" { "no mutation".to_string() } else { format!("set byte {} of m0.{} to {}", pos, file, val) }, as_kt.name()));
@@ -1585,7 +1596,7 @@ pub fn scen_sig(ctx: &Ctx) -> i32 {
             ("ops", evaluations.to_string()),
             ("exhaustive", if thorough { "true".into() } else { "false".into() }),
             ("samples", arr(&samples.iter().map(|s| esc(s)).collect::<Vec<_>>())),
-            ("known", arr(&known.iter().map(|s| esc(s)).collect::<Vec<_>>())),
+            ("candidates", arr(&known)),
             ("failures", arr(&failures.iter().map(|f| obj(&[("facet", esc(&f.facet)), ("replay", esc(&f.replay)), ("detail", esc(&f.detail))])).collect::<Vec<_>>())),
         ])
     );
